@@ -1,5 +1,6 @@
 import UgoVerif.Proofs.CompSimCompile
 import UgoVerif.Proofs.CompSimVM
+import UgoVerif.Proofs.CompSimScalar
 import UgoVerif.Model.Eval
 /-
   C02, compile ⊑ Sem, first slice — the simulation for expressions of the fragment `ExprF`:
@@ -21,12 +22,13 @@ def CodeHas (code : Code) (insts : Array UInt8) (p : Nat) : Prop :=
 def ConstsOK (K : Array Compile.Const) (consts : Array V) : Prop :=
   ∀ (i : Nat) (cv : Compile.CVal), K[i]? = some (.val cv) → consts[i]? = some (Eval.scalarOfCVal cv)
 
-/-- every variable of `σ` lives in a box of the reference semantics and in the local slot the
-    compiler gave it, with the same value; the slot is not captured (holds no box) -/
-def LocalsOK (σ : String → Option Nat) (env : Sem.Env) (s : State) (bp lo : Nat) : Prop :=
+/-- every variable of `σ` lives in a box on the heap of the reference semantics (state `t`) and in
+    the local slot the compiler gave it on the VM's stack (state `s`), with the same value, a scalar
+    (so the slot is not captured: it holds no `*ObjectPtr`) -/
+def LocalsOK (σ : String → Option Nat) (env : Sem.Env) (t s : State) (bp lo : Nat) : Prop :=
   ∀ (n : String) (i : Nat), σ n = some i →
-    ∃ (a : Addr) (v : V), Sem.lookupEnv n env = some a ∧ s.heap[a]? = some (.box v) ∧ bp + i < lo ∧
-      s.stack[bp + i]! = v ∧ ∀ b, v ≠ .box b
+    ∃ (a : Addr) (v : V), Sem.lookupEnv n env = some a ∧ t.heap[a]? = some (.box v) ∧ bp + i < lo ∧
+      s.stack[bp + i]! = v ∧ Scalar v
 
 structure VMOk (K : Array Compile.Const) (code : Code) (bp lo : Nat) (s : State) : Prop where
   abort : s.abort = false
@@ -41,33 +43,33 @@ theorem CodeAt.of_keep {s s' : State} {code : Code} (h : CodeAt s code) (hs : Sa
   obtain ⟨fa, c, fr, h1, h2, h3⟩ := h
   exact ⟨fa, c, fr, by rw [hs.frames, hs.curFrame]; exact h1, hk _ _ h2, by rw [hs.codes]; exact h3⟩
 
-/-- the invariants survive a stretch of execution that keeps the control part, keeps the heap
-    cells and keeps the stack below `n ≥ lo` -/
+/-- the invariants survive a stretch of execution that keeps the control part, the VM heap and the
+    stack below `n ≥ lo` -/
 theorem carry {K : Array Compile.Const} {code : Code} {bp lo : Nat} {σ : String → Option Nat} {env : Sem.Env}
-    {s s' : State} (hvm : VMOk K code bp lo s) (hloc : LocalsOK σ env s bp lo)
-    (hs : Same s s') (hk : ∀ (a : Nat) (c : Cell), s.heap[a]? = some c → s'.heap[a]? = some c)
+    {t s s' : State} (hvm : VMOk K code bp lo s) (hloc : LocalsOK σ env t s bp lo)
+    (hs : Same s s') (hk : s'.heap = s.heap)
     {n : Nat} (hag : AgreeBelow n s.stack s'.stack) (hn : lo ≤ n) (hsp : (lo : Int) ≤ s'.sp) :
-    VMOk K code bp lo s' ∧ LocalsOK σ env s' bp lo := by
-  refine ⟨⟨by rw [hs.abort]; exact hvm.abort, by rw [hag.1]; exact hvm.size, hvm.code.of_keep hs hk,
+    VMOk K code bp lo s' ∧ LocalsOK σ env t s' bp lo := by
+  refine ⟨⟨by rw [hs.abort]; exact hvm.abort, by rw [hag.1]; exact hvm.size, hvm.code.of_same hs hk,
     by rw [hs.frames, hs.curFrame]; exact hvm.bp, by rw [hs.consts]; exact hvm.consts, hsp⟩, ?_⟩
   intro nm i hi
   obtain ⟨a, v, h1, h2, h3, h4, h5⟩ := hloc nm i hi
-  exact ⟨a, v, h1, hk _ _ h2, h3, by rw [hag.2 _ (by omega)]; exact h4, h5⟩
+  exact ⟨a, v, h1, h2, h3, by rw [hag.2 _ (by omega)]; exact h4, h5⟩
 
-theorem keep_of {s s' t t1 : State} (hh : t.heap = s.heap) (hg : Grow t t1) (hh' : s'.heap = t1.heap) :
-    ∀ (a : Nat) (c : Cell), s.heap[a]? = some c → s'.heap[a]? = some c := by
-  intro a c h
-  rw [hh']
-  exact hg.keep a c (by rw [hh]; exact h)
-
-/-- what the VM does when the reference semantics returns `r` (leaving heap `h1`): a value is
-    pushed and `ip` stands at the end `q` of the expression's code; an error takes the VM to
-    `failWith` with an error that becomes the same object at the same address -/
-def Outcome (F : FloatOps) (s : State) (h1 : Array Cell) (q : Nat) : Sem.ER → Prop
-  | .val v => ∃ s', Reach F s s' ∧ Same s s' ∧ s'.heap = h1 ∧ s'.ip + 1 = (q : Int) ∧ s'.sp = s.sp + 1 ∧
+/-- the VM part of a value outcome: `v` is pushed, `ip` stands at the end `q` of the expression's
+    code, the VM heap and everything below `sp` is as before -/
+def OutV (F : FloatOps) (s : State) (q : Nat) (v : V) : Prop :=
+  ∃ s', Reach F s s' ∧ Same s s' ∧ s'.heap = s.heap ∧ s'.ip + 1 = (q : Int) ∧ s'.sp = s.sp + 1 ∧
       AgreeBelow s.sp.toNat s.stack s'.stack ∧ s'.stack[s.sp.toNat]! = v
-  | .thr a => ∃ (u : State) (oe : OpErr), ReachFail F s oe u ∧ Same s u ∧ AgreeBelow s.sp.toNat s.stack u.stack ∧
-      s.sp ≤ u.sp ∧ ∃ t0, exec (rtErrOfOpErr oe) u = (.ok a, t0) ∧ t0.heap = h1
+
+/-- what the VM does when the reference semantics, started in `t`, returns `r` in state `t1`: a
+    value is a scalar, the reference state is unchanged and the VM pushes the value (`OutV`); an
+    error takes the VM to `failWith oe` with the VM heap unchanged, `oe` is a `named` error and the
+    reference semantics' thrown object is what `rtErrOfOpErr oe` makes on its own heap `t` -/
+def Outcome (F : FloatOps) (s t t1 : State) (q : Nat) : Sem.ER → Prop
+  | .val v => t = t1 ∧ Scalar v ∧ OutV F s q v
+  | .thr a => ∃ (u : State) (oe : OpErr), ReachFail F s oe u ∧ (∃ n m, oe = .named n m) ∧ Same s u ∧ u.heap = s.heap ∧
+      AgreeBelow s.sp.toNat s.stack u.stack ∧ s.sp ≤ u.sp ∧ exec (rtErrOfOpErr oe) t = (.ok a, t1)
 
 theorem push_facts {s s' : State} {v : V} (hsz : s.stack.size = 2048) (hsp : 0 ≤ s.sp ∧ s.sp < 2048)
     (h : s'.stack = s.stack.set! s.sp.toNat v) :
@@ -82,7 +84,7 @@ theorem sim_emitConstant (F : FloatOps) (pos : Pos) (k : Compile.CVal) (cs cs' :
     Shape cs cs' ∧ ∀ (K : Array Compile.Const) (code : Code) (bp lo : Nat) (s : State),
       IsPre cs'.constants K → CodeHas code cs'.insts cs.insts.size → VMOk K code bp lo s →
       s.ip + 1 = (cs.insts.size : Int) → s.sp + 1 ≤ 2048 →
-      Outcome F s s.heap cs'.insts.size (.val (Eval.scalarOfCVal k)) := by
+      OutV F s cs'.insts.size (Eval.scalarOfCVal k) := by
   unfold Compile.emitConstant at hc
   obtain ⟨i, cs1, h1, h2⟩ := bind_inv hc
   have sh1 := Shape.of_addConstant h1
@@ -118,7 +120,7 @@ theorem sim_push0 (F : FloatOps) (pos : Pos) (op : Nat) (v : V)
     Shape cs cs' ∧ ∀ (K : Array Compile.Const) (code : Code) (bp lo : Nat) (s : State),
       CodeHas code cs'.insts cs.insts.size → VMOk K code bp lo s →
       s.ip + 1 = (cs.insts.size : Int) → s.sp + 1 ≤ 2048 →
-      Outcome F s s.heap cs'.insts.size (.val v) := by
+      OutV F s cs'.insts.size v := by
   refine ⟨Shape.of_emit_ hc, ?_⟩
   intro K code bp lo s hcode hvm hip hsp
   obtain ⟨bs, hbs, e2⟩ := emit__inv hc
@@ -146,29 +148,7 @@ theorem sim_push0 (F : FloatOps) (pos : Pos) (op : Nat) (v : V)
   obtain ⟨hag, hget⟩ := push_facts hvm.size hsp0 hst
   exact ⟨s', Reach.step hvm.abort hrun, hsame, hheap, by rw [hip', hsz]; push_cast; rfl, hsp', hag, hget⟩
 
-/-! ### the reference semantics of the fragment only grows the heap -/
-
-theorem grows_readBoxF (a : Addr) : Grows (readBoxF a) := by unfold readBoxF; grows
-theorem grows_raiseF (e : OpErr) : Grows (raiseF e) := by
-  unfold raiseF; exact grows_bind (grows_rtErrOfOpErr e) (fun _ => grows_pure _)
-
-theorem grows_evalF (F : FloatOps) : ∀ (fuel : Nat) (env : Sem.Env) (e : Expr), Grows (evalF F fuel env e)
-  | 0, _, _ => by unfold evalF; exact grows_unsupported _
-  | fuel+1, env, e => by
-    have ih := grows_evalF F fuel
-    have hb := grows_vBinaryOp F
-    have hu := grows_vUnary F
-    have he := grows_vEqual F
-    cases e <;> simp only [evalF] <;> (try grows)
-    all_goals first
-      | exact ih _ _
-      | exact grows_readBoxF _
-      | exact grows_raiseF _
-      | exact grows_rtErrOfOpErr _
-      | exact hb _ _ _
-      | exact hu _ _
-      | exact he _ _
-      | skip
+/-! ### inversion of runs of the reference semantics -/
 
 theorem exec_bind_inv {α β} {m : M α} {f : α → M β} {s s' : State} {b : β}
     (h : exec (m >>= f) s = (.ok b, s')) : ∃ a s1, exec m s = (.ok a, s1) ∧ exec (f a) s1 = (.ok b, s') := by
@@ -185,17 +165,16 @@ theorem exec_pure_inv {α} {a b : α} {s s' : State} (h : exec (pure a : M α) s
   simp only [Prod.mk.injEq, Except.ok.injEq] at h
   exact ⟨h.1.symm, h.2.symm⟩
 
-/-- the error raised by the reference semantics on heap `tx.heap` is what `rtErrOfOpErr` makes on
-    any state with that heap -/
-theorem raise_inv {oe : OpErr} {tx t1 : State} {r : Sem.ER} (h : exec (raiseF oe) tx = (.ok r, t1)) (u : State)
-    (hu : u.heap = tx.heap) :
-    ∃ a, r = .thr a ∧ ∃ t0, exec (rtErrOfOpErr oe) u = (.ok a, t0) ∧ t0.heap = t1.heap := by
+/-- the error raised by the reference semantics is `rtErrOfOpErr` on its state -/
+theorem raise_inv {oe : OpErr} {tx t1 : State} {r : Sem.ER} (h : exec (raiseF oe) tx = (.ok r, t1)) :
+    ∃ a, r = .thr a ∧ exec (rtErrOfOpErr oe) tx = (.ok a, t1) := by
   unfold raiseF at h
   obtain ⟨a, t0, h1, h2⟩ := exec_bind_inv h
   obtain ⟨rfl, rfl⟩ := exec_pure_inv h2
-  have := (ho_rtErrOfOpErr oe).h tx u hu
-  rw [h1] at this
-  exact ⟨a, rfl, { u with heap := t1.heap }, this, rfl⟩
+  exact ⟨a, rfl, h1⟩
+
+theorem scalar_ofCVal (k : Compile.CVal) : Scalar (Eval.scalarOfCVal k) := by
+  cases k <;> trivial
 
 theorem CodeHas.sub {code : Code} {X Y : Array UInt8} {p p' : Nat} (h : CodeHas code X p) (hp : Pre Y X) (hle : p ≤ p') :
     CodeHas code Y p' := by
@@ -203,11 +182,11 @@ theorem CodeHas.sub {code : Code} {X Y : Array UInt8} {p p' : Nat} (h : CodeHas 
   rw [h i (by omega) (by have := hp.1; omega), hp.2 i h2]
 
 /-- an error inside a sub-expression that started later -/
-theorem Outcome.thr_via {F : FloatOps} {s s1 : State} {h1 : Array Cell} {q q' : Nat} {a : Addr}
-    (hr : Reach F s s1) (hs : Same s s1) (hag : AgreeBelow s.sp.toNat s.stack s1.stack) (hsp : s.sp ≤ s1.sp)
-    (h0 : 0 ≤ s.sp) (h : Outcome F s1 h1 q (.thr a)) : Outcome F s h1 q' (.thr a) := by
-  obtain ⟨u, oe, hf, hsu, hagu, hspu, hrest⟩ := h
-  exact ⟨u, oe, ReachFail.of_reach hr hf, hs.trans hsu, hag.trans (hagu.mono (by omega)), by omega, hrest⟩
+theorem Outcome.thr_via {F : FloatOps} {s s1 t t1 : State} {q q' : Nat} {a : Addr}
+    (hr : Reach F s s1) (hs : Same s s1) (hh : s1.heap = s.heap) (hag : AgreeBelow s.sp.toNat s.stack s1.stack)
+    (hsp : s.sp ≤ s1.sp) (h0 : 0 ≤ s.sp) (h : Outcome F s1 t t1 q (.thr a)) : Outcome F s t t1 q' (.thr a) := by
+  obtain ⟨u, oe, hf, hnm, hsu, hhu, hagu, hspu, hrest⟩ := h
+  exact ⟨u, oe, ReachFail.of_reach hr hf, hnm, hs.trans hsu, by rw [hhu, hh], hag.trans (hagu.mono (by omega)), by omega, hrest⟩
 
 
 /-! ### the simulation statement -/
@@ -219,9 +198,9 @@ def SimAt (F : FloatOps) (e : Expr) (cs cs' : CState) : Prop :=
   ∀ (K : Array Compile.Const) (code : Code) (bp lo : Nat) (env : Sem.Env) (s t : State) (fuel : Nat)
     (r : Sem.ER) (t1 : State),
     IsPre cs'.constants K → CodeHas code cs'.insts cs.insts.size → VMOk K code bp lo s →
-    s.ip + 1 = (cs.insts.size : Int) → s.sp + need e ≤ 2048 → t.heap = s.heap →
-    LocalsOK (localIdx cs) env s bp lo → exec (evalF F fuel env e) t = (.ok r, t1) →
-    Outcome F s t1.heap cs'.insts.size r
+    s.ip + 1 = (cs.insts.size : Int) → s.sp + need e ≤ 2048 →
+    LocalsOK (localIdx cs) env t s bp lo → exec (evalF F fuel env e) t = (.ok r, t1) →
+    Outcome F s t t1 cs'.insts.size r
 
 def Good (F : FloatOps) (e : Expr) : Prop :=
   ∀ cs cs' : CState, runCM (compileExpr e) cs = (.ok (), cs') → ExprF (localIdx cs) e = true →
@@ -240,14 +219,13 @@ theorem good_const (F : FloatOps) (e : Expr) (pos : Pos) (k : Compile.CVal)
   rw [hce] at hc
   obtain ⟨sh, hsim⟩ := sim_emitConstant F pos k cs cs' hc
   refine ⟨sh, ?_⟩
-  intro K code bp lo env s t fuel r t1 hK hcode hvm hip hsp hh hloc hsem
+  intro K code bp lo env s t fuel r t1 hK hcode hvm hip hsp hloc hsem
   cases fuel with
   | zero => exact (evalF_zero_ne hsem).elim
   | succ fuel =>
     rw [hev] at hsem
     obtain ⟨rfl, rfl⟩ := exec_pure_inv hsem
-    rw [hh]
-    exact hsim K code bp lo s hK hcode hvm hip (by omega)
+    exact ⟨rfl, scalar_ofCVal k, hsim K code bp lo s hK hcode hvm hip (by omega)⟩
 
 theorem good_push0 (F : FloatOps) (e : Expr) (pos : Pos) (op : Nat) (v : V)
     (hop : (op = 21 ∧ v = .undefined) ∨ (op = 41 ∧ v = .bool true) ∨ (op = 42 ∧ v = .bool false))
@@ -257,14 +235,15 @@ theorem good_push0 (F : FloatOps) (e : Expr) (pos : Pos) (op : Nat) (v : V)
   rw [hce] at hc
   obtain ⟨sh, hsim⟩ := sim_push0 F pos op v hop cs cs' hc
   refine ⟨sh, ?_⟩
-  intro K code bp lo env s t fuel r t1 hK hcode hvm hip hsp hh hloc hsem
+  intro K code bp lo env s t fuel r t1 hK hcode hvm hip hsp hloc hsem
   cases fuel with
   | zero => exact (evalF_zero_ne hsem).elim
   | succ fuel =>
     rw [hev] at hsem
     obtain ⟨rfl, rfl⟩ := exec_pure_inv hsem
-    rw [hh]
-    exact hsim K code bp lo s hcode hvm hip (by omega)
+    have hsc : Scalar v := by
+      rcases hop with ⟨_, rfl⟩ | ⟨_, rfl⟩ | ⟨_, rfl⟩ <;> trivial
+    exact ⟨rfl, hsc, hsim K code bp lo s hcode hvm hip (by omega)⟩
 
 theorem good_ident (F : FloatOps) (pos : Pos) (name : String) : Good F (.ident pos name) := by
   intro cs cs' hc hF
@@ -281,7 +260,7 @@ theorem good_ident (F : FloatOps) (pos : Pos) (name : String) : Good F (.ident p
     obtain ⟨rfl, rfl⟩ := h0
     simp only [hscope] at hc
     refine ⟨Shape.of_emit_ hc, ?_⟩
-    intro K code bp lo env s t fuel r t1 hK hcode hvm hip hsp hh hloc hsem
+    intro K code bp lo env s t fuel r t1 hK hcode hvm hip hsp hloc hsem
     obtain ⟨bs, hbs, e2⟩ := emit__inv hc
     obtain ⟨hi0, hi255, b, rfl, hb⟩ := mk_w1 Compile.OpGetLocal rfl _ _ hbs
     rw [hidx] at hb
@@ -299,16 +278,16 @@ theorem good_ident (F : FloatOps) (pos : Pos) (name : String) : Good F (.ident p
       obtain ⟨v', t', hrb, hsem⟩ := exec_bind_inv hsem
       obtain ⟨rfl, rfl⟩ := exec_pure_inv hsem
       unfold readBoxF at hrb
-      rw [exec_bind, exec_heapGet_some _ _ _ (by rw [hh]; exact hbox)] at hrb
+      rw [exec_bind, exec_heapGet_some _ _ _ hbox] at hrb
       obtain ⟨rfl, rfl⟩ := exec_pure_inv hrb
       have hsp0 : 0 ≤ s.sp ∧ s.sp < 2048 := by have := hvm.lo; have := need_pos (.ident pos name); omega
       have hlo := hvm.lo
       obtain ⟨s', hrun, hsame, hheap, hip', hsp', hstk⟩ := step_getLocal F hvm.code cs.insts.size hip _ b
         (by simpa using hbk 0 (by omega)) rfl (by simpa using hbk 1 (by omega)) bp hvm.bp (by rw [hb]; omega)
-        (by rw [hb, hst]; exact hnb) hsp0
+        (by rw [hb, hst]; exact hnb.not_box) hsp0
       rw [hb, hst] at hstk
       obtain ⟨hag, hget⟩ := push_facts hvm.size hsp0 hstk
-      exact ⟨s', Reach.step hvm.abort hrun, hsame, by rw [hheap, hh], by rw [hip', hsz]; push_cast; omega, hsp', hag, hget⟩
+      exact ⟨rfl, hnb, s', Reach.step hvm.abort hrun, hsame, hheap, by rw [hip', hsz]; push_cast; omega, hsp', hag, hget⟩
 
 
 theorem good_paren (F : FloatOps) (pos : Pos) (x : Expr) (ihx : Good F x) : Good F (.paren pos x) := by
@@ -317,13 +296,13 @@ theorem good_paren (F : FloatOps) (pos : Pos) (x : Expr) (ihx : Good F x) : Good
   rw [compileExpr] at hc
   obtain ⟨shx, simx⟩ := ihx cs cs' hc hF
   refine ⟨shx, ?_⟩
-  intro K code bp lo env s t fuel r t1 hK hcode hvm hip hsp hh hloc hsem
+  intro K code bp lo env s t fuel r t1 hK hcode hvm hip hsp hloc hsem
   cases fuel with
   | zero => exact (evalF_zero_ne hsem).elim
   | succ fuel =>
     simp only [evalF] at hsem
     simp only [need] at hsp
-    exact simx K code bp lo env s t fuel r t1 hK hcode hvm hip hsp hh hloc hsem
+    exact simx K code bp lo env s t fuel r t1 hK hcode hvm hip hsp hloc hsem
 
 theorem good_unary (F : FloatOps) (pos : Pos) (tok : Nat) (x : Expr) (ihx : Good F x) : Good F (.unary pos tok x) := by
   intro cs cs' hc hF
@@ -334,7 +313,7 @@ theorem good_unary (F : FloatOps) (pos : Pos) (tok : Nat) (x : Expr) (ihx : Good
   split at hc
   · have she := Shape.of_emit_ hc
     refine ⟨shx.trans she, ?_⟩
-    intro K code bp lo env s t fuel r t1 hK hcode hvm hip hsp hh hloc hsem
+    intro K code bp lo env s t fuel r t1 hK hcode hvm hip hsp hloc hsem
     obtain ⟨bs, hbs, e2⟩ := emit__inv hc
     obtain ⟨ht0, ht255, b, rfl, hb⟩ := mk_w1 Compile.OpUnary rfl _ _ hbs
     simp only [Int.toNat_natCast] at hb
@@ -349,53 +328,52 @@ theorem good_unary (F : FloatOps) (pos : Pos) (tok : Nat) (x : Expr) (ihx : Good
       simp only [evalF] at hsem
       simp only [need] at hsp
       obtain ⟨rx, tx, hex, hsem⟩ := exec_bind_inv hsem
-      have hgx := (grows_evalF F fuel env x).h t
-      rw [hex] at hgx
       have ox := simx K code bp lo env s t fuel rx tx (Compile.IsPre.trans she.cpre hK)
-        (hcode.sub she.pre (Nat.le_refl _)) hvm hip hsp hh hloc hex
+        (hcode.sub she.pre (Nat.le_refl _)) hvm hip hsp hloc hex
       have hlo := hvm.lo
       cases rx with
       | thr a =>
         obtain ⟨rfl, rfl⟩ := exec_pure_inv hsem
         exact ox
       | val v =>
-        obtain ⟨s1, hr1, hs1, hh1, hip1, hsp1, hag1, hget1⟩ := ox
-        obtain ⟨hvm1, hloc1⟩ := carry hvm hloc hs1 (keep_of hh hgx hh1) hag1 (by omega) (by omega)
-        simp only at hsem
+        obtain ⟨rfl, hsv, s1, hr1, hs1, hh1, hip1, hsp1, hag1, hget1⟩ := ox
+        obtain ⟨hvm1, hloc1⟩ := carry hvm hloc hs1 hh1 hag1 (by omega) (by omega)
+        try simp only at hsem
         obtain ⟨y, ty, hey, hsem⟩ := exec_bind_inv hsem
-        have hro := runsOn_of (ho_vUnary F (tokOfNat tok) v) (grows_vUnary F (tokOfNat tok) v) hey
+        have hres : OpRes y := (post_vUnary F (tokOfNat tok) hsv).h _ _ _ hey
+        obtain ⟨rfl, hro⟩ := (pure_vUnary F (tokOfNat tok) hsv).runsOn hey
         have hidx : s1.sp - 1 = s.sp := by omega
         have hsz1 := hvm1.size
         have hnx := need_pos x
         cases y with
         | ok v' =>
           obtain ⟨s2, hrun, hs2, hh2, hip2, hsp2, hst2⟩ := step_unary_ok F hvm1.code cs1.insts.size hip1 _ b
-            (by simpa using hbk 0 (by omega)) rfl (by simpa using hbk 1 (by omega)) (by omega) v' ty.heap
-            (by rw [hb, hidx, hget1, hh1]; exact hro)
+            (by simpa using hbk 0 (by omega)) rfl (by simpa using hbk 1 (by omega)) (by omega) v' s1.heap
+            (by rw [hb, hidx, hget1]; exact hro _)
           obtain ⟨rfl, rfl⟩ := exec_pure_inv hsem
           rw [hidx] at hst2
-          refine ⟨s2, hr1.trans (Reach.step hvm1.abort hrun), hs1.trans hs2, hh2, by rw [hip2, hsz]; push_cast; omega,
-            by omega, ?_, ?_⟩
+          refine ⟨rfl, hres, s2, hr1.trans (Reach.step hvm1.abort hrun), hs1.trans hs2, by rw [hh2, hh1],
+            by rw [hip2, hsz]; push_cast; omega, by omega, ?_, ?_⟩
           · rw [hst2]; exact hag1.set _ _ (Nat.le_refl _)
           · rw [hst2]; exact set!_get_eq _ _ _ (by rw [hsz1]; omega)
         | error oe =>
           obtain ⟨u, hfail, hsu, hhu, hspu, hstu, hipu⟩ := step_unary_err F hvm1.code cs1.insts.size hip1 _ b
-            (by simpa using hbk 0 (by omega)) rfl (by simpa using hbk 1 (by omega)) (by omega) oe ty.heap
-            (by rw [hb, hidx, hget1, hh1]; exact hro)
-          obtain ⟨a, rfl, t0, hrt, hht⟩ := raise_inv hsem u hhu
-          exact ⟨u, oe, ReachFail.of_reach hr1 (ReachFail.step hvm1.abort hfail), hs1.trans hsu,
-            by rw [hstu]; exact hag1, by omega, t0, hrt, hht⟩
+            (by simpa using hbk 0 (by omega)) rfl (by simpa using hbk 1 (by omega)) (by omega) oe s1.heap
+            (by rw [hb, hidx, hget1]; exact hro _)
+          obtain ⟨a, rfl, hrt⟩ := raise_inv hsem
+          exact ⟨u, oe, ReachFail.of_reach hr1 (ReachFail.step hvm1.abort hfail), hres, hs1.trans hsu, by rw [hhu, hh1],
+            by rw [hstu]; exact hag1, by omega, hrt⟩
   · simp [Compile.cerr, Compile.runCM_throw] at hc
 
 
 /-! ### binary operators: the instruction behind the two operands -/
 
 /-- outcome of the operator instruction, relative to the state `s2` that has both operands on the stack -/
-def Outcome2 (F : FloatOps) (s2 : State) (h1 : Array Cell) (q : Nat) : Sem.ER → Prop
-  | .val v => ∃ s3, Reach F s2 s3 ∧ Same s2 s3 ∧ s3.heap = h1 ∧ s3.ip + 1 = (q : Int) ∧ s3.sp = s2.sp - 1 ∧
-      AgreeBelow (s2.sp - 2).toNat s2.stack s3.stack ∧ s3.stack[(s2.sp - 2).toNat]! = v
-  | .thr a => ∃ (u : State) (oe : OpErr), ReachFail F s2 oe u ∧ Same s2 u ∧ u.stack = s2.stack ∧ u.sp = s2.sp ∧
-      ∃ t0, exec (rtErrOfOpErr oe) u = (.ok a, t0) ∧ t0.heap = h1
+def Outcome2 (F : FloatOps) (s2 t t1 : State) (q : Nat) : Sem.ER → Prop
+  | .val v => t = t1 ∧ Scalar v ∧ ∃ s3, Reach F s2 s3 ∧ Same s2 s3 ∧ s3.heap = s2.heap ∧ s3.ip + 1 = (q : Int) ∧
+      s3.sp = s2.sp - 1 ∧ AgreeBelow (s2.sp - 2).toNat s2.stack s3.stack ∧ s3.stack[(s2.sp - 2).toNat]! = v
+  | .thr a => ∃ (u : State) (oe : OpErr), ReachFail F s2 oe u ∧ (∃ n m, oe = .named n m) ∧ Same s2 u ∧ u.heap = s2.heap ∧
+      u.stack = s2.stack ∧ u.sp = s2.sp ∧ exec (rtErrOfOpErr oe) t = (.ok a, t1)
 
 theorem two_sets {st : Array V} {i : Nat} {v : V} (hsz : st.size = 2048) (hi : i + 1 < 2048) :
     AgreeBelow i st ((st.set! i v).set! (i + 1) .nil) ∧ ((st.set! i v).set! (i + 1) .nil)[i]! = v := by
@@ -407,12 +385,12 @@ theorem tail_arith (F : FloatOps) (pos : Pos) (tok : Nat) (cs2 cs' : CState)
     (K : Array Compile.Const) (code : Code) (bp lo : Nat) (s2 ty : State) (lv rv : V) (r : Sem.ER) (t1 : State)
     (hcode : CodeHas code cs'.insts cs2.insts.size) (hvm : VMOk K code bp lo s2)
     (hip : s2.ip + 1 = (cs2.insts.size : Int)) (hsp : 2 ≤ s2.sp ∧ s2.sp ≤ 2048)
-    (hl : s2.stack[(s2.sp - 2).toNat]! = lv) (hr : s2.stack[(s2.sp - 1).toNat]! = rv) (hh : ty.heap = s2.heap)
+    (hl : s2.stack[(s2.sp - 2).toNat]! = lv) (hr : s2.stack[(s2.sp - 1).toNat]! = rv) (hsl : Scalar lv) (hsr : Scalar rv)
     (hsem : exec (do
       match (← vBinaryOp F (tokOfNat tok) lv rv) with
       | .ok v => pure (Sem.ER.val v)
       | .error e => raiseF e) ty = (.ok r, t1)) :
-    Outcome2 F s2 t1.heap cs'.insts.size r := by
+    Outcome2 F s2 ty t1 cs'.insts.size r := by
   obtain ⟨bs, hbs, e2⟩ := emit__inv hc
   obtain ⟨ht0, ht255, b, rfl, hb⟩ := mk_w1 Compile.OpBinaryOp rfl _ _ hbs
   simp only [Int.toNat_natCast] at hb
@@ -422,25 +400,26 @@ theorem tail_arith (F : FloatOps) (pos : Pos) (tok : Nat) (cs2 cs' : CState)
     rw [hcode _ (by omega) (by omega), e2]
     exact emit_bytes _ _ (by simpa using hk)
   obtain ⟨y, tyy, hey, hsem⟩ := exec_bind_inv hsem
-  have hro := runsOn_of (ho_vBinaryOp F (tokOfNat tok) lv rv) (grows_vBinaryOp F (tokOfNat tok) lv rv) hey
+  have hres : OpRes y := (post_vBinaryOp F (tokOfNat tok) hsl).h _ _ _ hey
+  obtain ⟨rfl, hro⟩ := (pure_vBinaryOp F (tokOfNat tok) hsl hsr).runsOn hey
   have hsz2 := hvm.size
   cases y with
   | ok v =>
     obtain ⟨s3, hrun, hs3, hh3, hip3, hsp3, hst3⟩ := step_binop_ok F hvm.code cs2.insts.size hip _ b
-      (by simpa using hbk 0 (by omega)) rfl (by simpa using hbk 1 (by omega)) hsp v tyy.heap
-      (by rw [hb, hl, hr, ← hh]; exact hro)
+      (by simpa using hbk 0 (by omega)) rfl (by simpa using hbk 1 (by omega)) hsp v s2.heap
+      (by rw [hb, hl, hr]; exact hro _)
     obtain ⟨rfl, rfl⟩ := exec_pure_inv hsem
     have hi2 : (s2.sp - 1).toNat = (s2.sp - 2).toNat + 1 := by omega
     rw [hi2] at hst3
     obtain ⟨hag, hget⟩ := two_sets (v := v) hsz2 (i := (s2.sp - 2).toNat) (by omega)
-    exact ⟨s3, Reach.step hvm.abort hrun, hs3, hh3, by rw [hip3, hsz]; push_cast; omega, hsp3,
+    exact ⟨rfl, hres, s3, Reach.step hvm.abort hrun, hs3, hh3, by rw [hip3, hsz]; push_cast; omega, hsp3,
       by rw [hst3]; exact hag, by rw [hst3]; exact hget⟩
   | error oe =>
     obtain ⟨u, hfail, hsu, hhu, hspu, hstu, hipu⟩ := step_binop_err F hvm.code cs2.insts.size hip _ b
-      (by simpa using hbk 0 (by omega)) rfl (by simpa using hbk 1 (by omega)) hsp oe tyy.heap
-      (by rw [hb, hl, hr, ← hh]; exact hro)
-    obtain ⟨a, rfl, t0, hrt, hht⟩ := raise_inv hsem u hhu
-    exact ⟨u, oe, ReachFail.step hvm.abort hfail, hsu, hstu, hspu, t0, hrt, hht⟩
+      (by simpa using hbk 0 (by omega)) rfl (by simpa using hbk 1 (by omega)) hsp oe s2.heap
+      (by rw [hb, hl, hr]; exact hro _)
+    obtain ⟨a, rfl, hrt⟩ := raise_inv hsem
+    exact ⟨u, oe, ReachFail.step hvm.abort hfail, hres, hsu, hhu, hstu, hspu, hrt⟩
 
 theorem tail_equal (F : FloatOps) (pos : Pos) (op : Nat) (neg : Bool)
     (hop : (op = 10 ∧ neg = false) ∨ (op = 11 ∧ neg = true)) (cs2 cs' : CState)
@@ -448,9 +427,9 @@ theorem tail_equal (F : FloatOps) (pos : Pos) (op : Nat) (neg : Bool)
     (K : Array Compile.Const) (code : Code) (bp lo : Nat) (s2 ty : State) (lv rv : V) (r : Sem.ER) (t1 : State)
     (hcode : CodeHas code cs'.insts cs2.insts.size) (hvm : VMOk K code bp lo s2)
     (hip : s2.ip + 1 = (cs2.insts.size : Int)) (hsp : 2 ≤ s2.sp ∧ s2.sp ≤ 2048)
-    (hl : s2.stack[(s2.sp - 2).toNat]! = lv) (hr : s2.stack[(s2.sp - 1).toNat]! = rv) (hh : ty.heap = s2.heap)
+    (hl : s2.stack[(s2.sp - 2).toNat]! = lv) (hr : s2.stack[(s2.sp - 1).toNat]! = rv) (hsl : Scalar lv) (hsr : Scalar rv)
     (hsem : exec (do let b ← vEqual F lv rv; pure (Sem.ER.val (.bool (if neg then !b else b)))) ty = (.ok r, t1)) :
-    Outcome2 F s2 t1.heap cs'.insts.size r := by
+    Outcome2 F s2 ty t1 cs'.insts.size r := by
   obtain ⟨bs, hbs, e2⟩ := emit__inv hc
   have hbs' : bs = [UInt8.ofNat op] := by
     rcases hop with ⟨rfl, _⟩ | ⟨rfl, _⟩
@@ -464,14 +443,14 @@ theorem tail_equal (F : FloatOps) (pos : Pos) (op : Nat) (neg : Bool)
     rw [hcode _ (Nat.le_refl _) (by omega), e2]
     exact emit_bytes (cs := cs2) [UInt8.ofNat op] 0 (by simp)
   obtain ⟨eq, tyy, hey, hsem⟩ := exec_bind_inv hsem
-  have hro := runsOn_of (ho_vEqual F lv rv) (grows_vEqual F lv rv) hey
+  obtain ⟨rfl, hro⟩ := (pure_vEqual F hsl hsr).runsOn hey
   have hsz2 := hvm.size
   have hopn : (UInt8.ofNat op).toNat = 10 ∨ (UInt8.ofNat op).toNat = 11 := by
     rcases hop with ⟨rfl, _⟩ | ⟨rfl, _⟩
     · exact .inl rfl
     · exact .inr rfl
-  obtain ⟨s3, hrun, hs3, hh3, hip3, hsp3, hst3⟩ := step_equal F hvm.code cs2.insts.size hip _ hb0 hopn hsp eq tyy.heap
-    (by rw [hl, hr, ← hh]; exact hro)
+  obtain ⟨s3, hrun, hs3, hh3, hip3, hsp3, hst3⟩ := step_equal F hvm.code cs2.insts.size hip _ hb0 hopn hsp eq s2.heap
+    (by rw [hl, hr]; exact hro _)
   obtain ⟨rfl, rfl⟩ := exec_pure_inv hsem
   have hi2 : (s2.sp - 1).toNat = (s2.sp - 2).toNat + 1 := by omega
   rw [hi2] at hst3
@@ -481,26 +460,29 @@ theorem tail_equal (F : FloatOps) (pos : Pos) (op : Nat) (neg : Bool)
     · rfl
   rw [hval] at hst3
   obtain ⟨hag, hget⟩ := two_sets (v := .bool (if neg then !eq else eq)) hsz2 (i := (s2.sp - 2).toNat) (by omega)
-  exact ⟨s3, Reach.step hvm.abort hrun, hs3, hh3, by rw [hip3, hsz]; push_cast; rfl, hsp3,
+  exact ⟨rfl, trivial, s3, Reach.step hvm.abort hrun, hs3, hh3, by rw [hip3, hsz]; push_cast; rfl, hsp3,
     by rw [hst3]; exact hag, by rw [hst3]; exact hget⟩
 
 /-- both operands evaluated (`s → s1 → s2`), then the operator instruction -/
-theorem combine2 {F : FloatOps} {s s1 s2 : State} {h1 : Array Cell} {q : Nat} {r : Sem.ER}
+theorem combine2 {F : FloatOps} {s s1 s2 t t1 : State} {q : Nat} {r : Sem.ER}
     (hsz : s.stack.size = 2048) (h0 : 0 ≤ s.sp)
-    (hr1 : Reach F s s1) (hs1 : Same s s1) (hsp1 : s1.sp = s.sp + 1) (hag1 : AgreeBelow s.sp.toNat s.stack s1.stack)
-    (hr2 : Reach F s1 s2) (hs2 : Same s1 s2) (hsp2 : s2.sp = s1.sp + 1) (hag2 : AgreeBelow s1.sp.toNat s1.stack s2.stack)
-    (h : Outcome2 F s2 h1 q r) : Outcome F s h1 q r := by
+    (hr1 : Reach F s s1) (hs1 : Same s s1) (hh1 : s1.heap = s.heap) (hsp1 : s1.sp = s.sp + 1)
+    (hag1 : AgreeBelow s.sp.toNat s.stack s1.stack)
+    (hr2 : Reach F s1 s2) (hs2 : Same s1 s2) (hh2 : s2.heap = s1.heap) (hsp2 : s2.sp = s1.sp + 1)
+    (hag2 : AgreeBelow s1.sp.toNat s1.stack s2.stack)
+    (h : Outcome2 F s2 t t1 q r) : Outcome F s t t1 q r := by
   have hi : (s2.sp - 2).toNat = s.sp.toNat := by omega
   have hag12 : AgreeBelow s.sp.toNat s.stack s2.stack := hag1.trans (hag2.mono (by omega))
   cases r with
   | val v =>
-    obtain ⟨s3, hr3, hs3, hh3, hip3, hsp3, hag3, hget3⟩ := h
+    obtain ⟨ht, hsv, s3, hr3, hs3, hh3, hip3, hsp3, hag3, hget3⟩ := h
     rw [hi] at hag3 hget3
-    exact ⟨s3, (hr1.trans hr2).trans hr3, (hs1.trans hs2).trans hs3, hh3, hip3, by omega, hag12.trans hag3, hget3⟩
+    exact ⟨ht, hsv, s3, (hr1.trans hr2).trans hr3, (hs1.trans hs2).trans hs3, by rw [hh3, hh2, hh1], hip3, by omega,
+      hag12.trans hag3, hget3⟩
   | thr a =>
-    obtain ⟨u, oe, hf, hsu, hstu, hspu, hrest⟩ := h
-    exact ⟨u, oe, ReachFail.of_reach (hr1.trans hr2) hf, (hs1.trans hs2).trans hsu, by rw [hstu]; exact hag12,
-      by omega, hrest⟩
+    obtain ⟨u, oe, hf, hnm, hsu, hhu, hstu, hspu, hrest⟩ := h
+    exact ⟨u, oe, ReachFail.of_reach (hr1.trans hr2) hf, hnm, (hs1.trans hs2).trans hsu, by rw [hhu, hh2, hh1],
+      by rw [hstu]; exact hag12, by omega, hrest⟩
 
 
 /-- binary operators other than `&&` / `||` -/
@@ -518,39 +500,39 @@ theorem good_binary_strict (F : FloatOps) (pos : Pos) (tok : Nat) (l r : Expr) (
   have htail : Shape cs2 cs' ∧ ∀ (K : Array Compile.Const) (code : Code) (bp lo : Nat) (s2 ty : State) (lv rv : V)
       (rr : Sem.ER) (t1 : State), CodeHas code cs'.insts cs2.insts.size → VMOk K code bp lo s2 →
       s2.ip + 1 = (cs2.insts.size : Int) → 2 ≤ s2.sp ∧ s2.sp ≤ 2048 →
-      s2.stack[(s2.sp - 2).toNat]! = lv → s2.stack[(s2.sp - 1).toNat]! = rv → ty.heap = s2.heap →
+      s2.stack[(s2.sp - 2).toNat]! = lv → s2.stack[(s2.sp - 1).toNat]! = rv → Scalar lv → Scalar rv →
       exec (if tok == tEqual then (do pure (Sem.ER.val (.bool (← vEqual F lv rv))))
             else if tok == tNotEqual then (do pure (Sem.ER.val (.bool (!(← vEqual F lv rv)))))
             else (do
               match (← vBinaryOp F (tokOfNat tok) lv rv) with
               | .ok v => pure (Sem.ER.val v)
               | .error e => raiseF e)) ty = (.ok rr, t1) →
-      Outcome2 F s2 t1.heap cs'.insts.size rr := by
+      Outcome2 F s2 ty t1 cs'.insts.size rr := by
     split at hc
     · rename_i heq
       refine ⟨Shape.of_emit_ hc, ?_⟩
-      intro K code bp lo s2 ty lv rv rr t1 hcode hvm hip hsp hlv hrv hh hsem
+      intro K code bp lo s2 ty lv rv rr t1 hcode hvm hip hsp hlv hrv hsl hsr hsem
       simp only [heq, if_true] at hsem
-      exact tail_equal F pos 10 false (.inl ⟨rfl, rfl⟩) cs2 cs' hc K code bp lo s2 ty lv rv rr t1 hcode hvm hip hsp hlv hrv hh
+      exact tail_equal F pos 10 false (.inl ⟨rfl, rfl⟩) cs2 cs' hc K code bp lo s2 ty lv rv rr t1 hcode hvm hip hsp hlv hrv hsl hsr
         (by simpa using hsem)
     · rename_i heq
       split at hc
       · rename_i hne
         refine ⟨Shape.of_emit_ hc, ?_⟩
-        intro K code bp lo s2 ty lv rv rr t1 hcode hvm hip hsp hlv hrv hh hsem
+        intro K code bp lo s2 ty lv rv rr t1 hcode hvm hip hsp hlv hrv hsl hsr hsem
         simp only [heq, hne, if_true, Bool.false_eq_true, if_false] at hsem
-        exact tail_equal F pos 11 true (.inr ⟨rfl, rfl⟩) cs2 cs' hc K code bp lo s2 ty lv rv rr t1 hcode hvm hip hsp hlv hrv hh
+        exact tail_equal F pos 11 true (.inr ⟨rfl, rfl⟩) cs2 cs' hc K code bp lo s2 ty lv rv rr t1 hcode hvm hip hsp hlv hrv hsl hsr
           (by simpa using hsem)
       · rename_i hne
         split at hc
         · simp [Compile.cerr, Compile.runCM_throw] at hc
         · refine ⟨Shape.of_emit_ hc, ?_⟩
-          intro K code bp lo s2 ty lv rv rr t1 hcode hvm hip hsp hlv hrv hh hsem
+          intro K code bp lo s2 ty lv rv rr t1 hcode hvm hip hsp hlv hrv hsl hsr hsem
           simp only [heq, hne, Bool.false_eq_true, if_false] at hsem
-          exact tail_arith F pos tok cs2 cs' hc K code bp lo s2 ty lv rv rr t1 hcode hvm hip hsp hlv hrv hh hsem
+          exact tail_arith F pos tok cs2 cs' hc K code bp lo s2 ty lv rv rr t1 hcode hvm hip hsp hlv hrv hsl hsr hsem
   obtain ⟨sht, simt⟩ := htail
   refine ⟨(shl.trans shr).trans sht, ?_⟩
-  intro K code bp lo env s t fuel rr t1 hK hcode hvm hip hsp hh hloc hsem
+  intro K code bp lo env s t fuel rr t1 hK hcode hvm hip hsp hloc hsem
   cases fuel with
   | zero => exact (evalF_zero_ne hsem).elim
   | succ fuel =>
@@ -560,55 +542,51 @@ theorem good_binary_strict (F : FloatOps) (pos : Pos) (tok : Nat) (l r : Expr) (
     have hnr := need_pos r
     have hlo := hvm.lo
     obtain ⟨rl, tl, hel, hsem⟩ := exec_bind_inv hsem
-    have hgl := (grows_evalF F fuel env l).h t
-    rw [hel] at hgl
     have ol := siml K code bp lo env s t fuel rl tl (Compile.IsPre.trans (shr.trans sht).cpre hK)
-      (hcode.sub (shr.trans sht).pre (Nat.le_refl _)) hvm hip (by omega) hh hloc hel
+      (hcode.sub (shr.trans sht).pre (Nat.le_refl _)) hvm hip (by omega) hloc hel
     cases rl with
     | thr a =>
       obtain ⟨rfl, rfl⟩ := exec_pure_inv hsem
       exact ol
     | val lv =>
-      obtain ⟨s1, hr1, hs1, hh1, hip1, hsp1, hag1, hget1⟩ := ol
-      obtain ⟨hvm1, hloc1⟩ := carry hvm hloc hs1 (keep_of hh hgl hh1) hag1 (by omega) (by omega)
-      simp only at hsem
+      obtain ⟨rfl, hsl, s1, hr1, hs1, hh1, hip1, hsp1, hag1, hget1⟩ := ol
+      obtain ⟨hvm1, hloc1⟩ := carry hvm hloc hs1 hh1 hag1 (by omega) (by omega)
+      try simp only at hsem
       obtain ⟨rr2, tr, her, hsem⟩ := exec_bind_inv hsem
-      have hgr := (grows_evalF F fuel env r).h tl
-      rw [her] at hgr
-      have or_ := simr K code bp lo env s1 tl fuel rr2 tr (Compile.IsPre.trans sht.cpre hK)
-        (hcode.sub sht.pre shl.pre.1) hvm1 hip1 (by omega) hh1.symm (by rw [shl.localIdx]; exact hloc1) her
+      have or_ := simr K code bp lo env s1 t fuel rr2 tr (Compile.IsPre.trans sht.cpre hK)
+        (hcode.sub sht.pre shl.pre.1) hvm1 hip1 (by omega) (by rw [shl.localIdx]; exact hloc1) her
       cases rr2 with
       | thr a =>
         obtain ⟨rfl, rfl⟩ := exec_pure_inv hsem
-        exact Outcome.thr_via hr1 hs1 hag1 (by omega) (by omega) or_
+        exact Outcome.thr_via hr1 hs1 hh1 hag1 (by omega) (by omega) or_
       | val rv =>
-        obtain ⟨s2, hr2, hs2, hh2, hip2, hsp2, hag2, hget2⟩ := or_
-        obtain ⟨hvm2, hloc2⟩ := carry hvm1 hloc1 hs2 (keep_of hh1.symm hgr hh2) hag2 (by omega) (by omega)
-        simp only at hsem
+        obtain ⟨rfl, hsr, s2, hr2, hs2, hh2, hip2, hsp2, hag2, hget2⟩ := or_
+        obtain ⟨hvm2, hloc2⟩ := carry hvm1 hloc1 hs2 hh2 hag2 (by omega) (by omega)
+        try simp only at hsem
         have hlv : s2.stack[(s2.sp - 2).toNat]! = lv := by
           have : (s2.sp - 2).toNat = s.sp.toNat := by omega
           rw [this, hag2.2 _ (by omega), hget1]
         have hrv : s2.stack[(s2.sp - 1).toNat]! = rv := by
           have : (s2.sp - 1).toNat = s1.sp.toNat := by omega
           rw [this, hget2]
-        have o2 := simt K code bp lo s2 tr lv rv rr t1 (hcode.sub (Pre.refl _) (by have := shl.pre.1; have := shr.pre.1; omega))
-          hvm2 hip2 (by omega) hlv hrv hh2.symm hsem
-        exact combine2 hvm.size (by omega) hr1 hs1 hsp1 hag1 hr2 hs2 hsp2 hag2 o2
+        have o2 := simt K code bp lo s2 t lv rv rr t1 (hcode.sub (Pre.refl _) (by have := shl.pre.1; have := shr.pre.1; omega))
+          hvm2 hip2 (by omega) hlv hrv hsl hsr hsem
+        exact combine2 hvm.size (by omega) hr1 hs1 hh1 hsp1 hag1 hr2 hs2 hh2 hsp2 hag2 o2
 
 
 /-- the rest of an expression runs from a state `s2` that has the same `sp` as `s` -/
-theorem Outcome.via {F : FloatOps} {s s2 : State} {h1 : Array Cell} {q : Nat} {r : Sem.ER}
-    (hr : Reach F s s2) (hs : Same s s2) (hag : AgreeBelow s.sp.toNat s.stack s2.stack) (hsp : s2.sp = s.sp)
-    (h : Outcome F s2 h1 q r) : Outcome F s h1 q r := by
+theorem Outcome.via {F : FloatOps} {s s2 t t1 : State} {q : Nat} {r : Sem.ER}
+    (hr : Reach F s s2) (hs : Same s s2) (hh : s2.heap = s.heap) (hag : AgreeBelow s.sp.toNat s.stack s2.stack)
+    (hsp : s2.sp = s.sp) (h : Outcome F s2 t t1 q r) : Outcome F s t t1 q r := by
   cases r with
   | val v =>
-    obtain ⟨s3, hr3, hs3, hh3, hip3, hsp3, hag3, hget3⟩ := h
+    obtain ⟨ht, hsv, s3, hr3, hs3, hh3, hip3, hsp3, hag3, hget3⟩ := h
     rw [hsp] at hag3 hget3
-    exact ⟨s3, hr.trans hr3, hs.trans hs3, hh3, hip3, by omega, hag.trans hag3, hget3⟩
+    exact ⟨ht, hsv, s3, hr.trans hr3, hs.trans hs3, by rw [hh3, hh], hip3, by omega, hag.trans hag3, hget3⟩
   | thr a =>
-    obtain ⟨u, oe, hf, hsu, hagu, hspu, hrest⟩ := h
+    obtain ⟨u, oe, hf, hnm, hsu, hhu, hagu, hspu, hrest⟩ := h
     rw [hsp] at hagu
-    exact ⟨u, oe, ReachFail.of_reach hr hf, hs.trans hsu, hag.trans hagu, by omega, hrest⟩
+    exact ⟨u, oe, ReachFail.of_reach hr hf, hnm, hs.trans hsu, by rw [hhu, hh], hag.trans hagu, by omega, hrest⟩
 
 /-- `&&` and `||`: the jump-based short circuit -/
 theorem good_binary_sc (F : FloatOps) (pos : Pos) (tok : Nat) (l r : Expr) (ihl : Good F l) (ihr : Good F r)
@@ -651,7 +629,7 @@ theorem good_binary_sc (F : FloatOps) (pos : Pos) (tok : Nat) (l r : Expr) (ihl 
   have sh3 : Shape cs cs3 := (shl.trans she).trans shr
   have hsh : Shape cs cs' := by rw [e4]; exact sh3.patch _ _ (by rw [hjp]; exact shl.pre.1)
   refine ⟨hsh, ?_⟩
-  intro K code bp lo env s t fuel rr t1 hK hcode hvm hip hsp hh hloc hsem
+  intro K code bp lo env s t fuel rr t1 hK hcode hvm hip hsp hloc hsem
   have hK3 : IsPre cs3.constants K := by
     have : cs'.constants = cs3.constants := by rw [e4]
     rw [← this]; exact hK
@@ -676,20 +654,18 @@ theorem good_binary_sc (F : FloatOps) (pos : Pos) (tok : Nat) (l r : Expr) (ihl 
     have hnr := need_pos r
     have hlo := hvm.lo
     obtain ⟨rl, tl, hel, hsem⟩ := exec_bind_inv hsem
-    have hgl := (grows_evalF F fuel env l).h t
-    rw [hel] at hgl
     have ol := siml K code bp lo env s t fuel rl tl (Compile.IsPre.trans (she.trans shr).cpre hK3) hcl hvm hip (by omega)
-      hh hloc hel
+      hloc hel
     cases rl with
     | thr a =>
       obtain ⟨rfl, rfl⟩ := exec_pure_inv hsem
       exact ol
     | val lv =>
-      obtain ⟨s1, hr1, hs1, hh1, hip1, hsp1, hag1, hget1⟩ := ol
-      obtain ⟨hvm1, hloc1⟩ := carry hvm hloc hs1 (keep_of hh hgl hh1) hag1 (by omega) (by omega)
-      simp only at hsem
+      obtain ⟨rfl, hsl, s1, hr1, hs1, hh1, hip1, hsp1, hag1, hget1⟩ := ol
+      obtain ⟨hvm1, hloc1⟩ := carry hvm hloc hs1 hh1 hag1 (by omega) (by omega)
+      try simp only at hsem
       -- both forms evaluate `isFalsy lv` first
-      have hsem' : ∃ fl tf, exec (isFalsy lv) tl = (.ok fl, tf) ∧
+      have hsem' : ∃ fl tf, exec (isFalsy lv) t = (.ok fl, tf) ∧
           exec (if (fl == isAnd) = true then pure (Sem.ER.val lv) else evalF F fuel env r) tf = (.ok rr, t1) := by
         by_cases ha : (tok == tLAnd) = true
         · have hia : isAnd = true := ha
@@ -706,15 +682,13 @@ theorem good_binary_sc (F : FloatOps) (pos : Pos) (tok : Nat) (l r : Expr) (ihl 
           rw [hia]
           cases fl <;> simpa using h2
       obtain ⟨fl, tf, hfl, hsem⟩ := hsem'
-      have hro := runsOn_of (ho_isFalsy lv) (grows_isFalsy lv) hfl
-      have hgf := (grows_isFalsy lv).h tl
-      rw [hfl] at hgf
+      obtain ⟨rfl, hro⟩ := (pure_isFalsy hsl).runsOn hfl
       have hidx : s1.sp - 1 = s.sp := by omega
       obtain ⟨s2, hrun, hs2, hh2, hcase⟩ := step_andOrJump F hvm1.code cs1.insts.size hip1 _ b1 b2 b3 b4
         (by simpa using hcj 0 (by omega)) (by rw [← hopb']; cases isAnd <;> simp [hopbn])
         (by simpa using hcj 1 (by omega)) (by simpa using hcj 2 (by omega))
-        (by simpa using hcj 3 (by omega)) (by simpa using hcj 4 (by omega)) (by omega) fl tf.heap
-        (by rw [hidx, hget1, hh1]; exact hro)
+        (by simpa using hcj 3 (by omega)) (by simpa using hcj 4 (by omega)) (by omega) fl s1.heap
+        (by rw [hidx, hget1]; exact hro _)
       have hb14 : ((UInt8.ofNat (if isAnd then 14 else 15)).toNat == 14) = isAnd := by cases isAnd <;> rfl
       rw [hb14, hdec] at hcase
       by_cases hjmp : (fl == isAnd) = true
@@ -722,8 +696,8 @@ theorem good_binary_sc (F : FloatOps) (pos : Pos) (tok : Nat) (l r : Expr) (ihl 
         simp only [hjmp, if_true] at hcase hsem
         obtain ⟨rfl, rfl⟩ := exec_pure_inv hsem
         obtain ⟨hip2, hsp2, hst2⟩ := hcase
-        exact ⟨s2, hr1.trans (Reach.step hvm1.abort hrun), hs1.trans hs2, hh2, by rw [hsz']; exact hip2, by omega,
-          by rw [hst2]; exact hag1, by rw [hst2]; exact hget1⟩
+        exact ⟨rfl, hsl, s2, hr1.trans (Reach.step hvm1.abort hrun), hs1.trans hs2, by rw [hh2, hh1], by rw [hsz']; exact hip2,
+          by omega, by rw [hst2]; exact hag1, by rw [hst2]; exact hget1⟩
       · -- no jump: the left value is popped, the right operand is the result
         simp only [hjmp, Bool.false_eq_true, if_false] at hcase hsem
         obtain ⟨hip2, hsp2, hst2⟩ := hcase
@@ -731,22 +705,21 @@ theorem good_binary_sc (F : FloatOps) (pos : Pos) (tok : Nat) (l r : Expr) (ihl 
         have hag2 : AgreeBelow s.sp.toNat s.stack s2.stack := by rw [hst2]; exact hag1.set _ _ (Nat.le_refl _)
         have hag12 : AgreeBelow s.sp.toNat s1.stack s2.stack := by
           rw [hst2]; exact (AgreeBelow.refl _ _).set _ _ (Nat.le_refl _)
-        obtain ⟨hvm2, hloc2⟩ := carry hvm1 hloc1 hs2 (keep_of hh1.symm hgf hh2) hag12 (by omega) (by omega)
-        have or_ := simr K code bp lo env s2 tf fuel rr t1 (Compile.IsPre.trans (Compile.IsPre.refl _) hK3) hcr hvm2
-          (by rw [hip2, hsz2]; push_cast; rfl) (by omega) hh2.symm
+        obtain ⟨hvm2, hloc2⟩ := carry hvm1 hloc1 hs2 hh2 hag12 (by omega) (by omega)
+        have or_ := simr K code bp lo env s2 t fuel rr t1 (Compile.IsPre.trans (Compile.IsPre.refl _) hK3) hcr hvm2
+          (by rw [hip2, hsz2]; push_cast; rfl) (by omega)
           (by rw [she.localIdx, shl.localIdx]; exact hloc2) hsem
         rw [← hsz'] at or_
-        exact Outcome.via (hr1.trans (Reach.step hvm1.abort hrun)) (hs1.trans hs2) hag2 (by omega) or_
+        exact Outcome.via (hr1.trans (Reach.step hvm1.abort hrun)) (hs1.trans hs2) (by rw [hh2, hh1]) hag2 (by omega) or_
 
 
 /-- a value outcome followed by a JUMP to `q` -/
-theorem Outcome.then_jump {F : FloatOps} {K : Array Compile.Const} {code : Code} {bp lo : Nat} {s : State}
-    {h1 : Array Cell} {q3 q : Nat} {v : V}
-    (h : Outcome F s h1 q3 (.val v))
-    (hstep : ∀ s3 : State, Same s s3 → s3.heap = h1 → s3.ip + 1 = (q3 : Int) →
+theorem OutV.then_jump {F : FloatOps} {s : State} {q3 q : Nat} {v : V}
+    (h : OutV F s q3 v)
+    (hstep : ∀ s3 : State, Same s s3 → s3.heap = s.heap → s3.ip + 1 = (q3 : Int) →
       ∃ s4, exec (step F) s3 = (.ok .next, s4) ∧ Same s3 s4 ∧ s4.heap = s3.heap ∧ s4.ip + 1 = (q : Int) ∧ s4.sp = s3.sp ∧
         s4.stack = s3.stack)
-    (hab : s.abort = false) : Outcome F s h1 q (.val v) := by
+    (hab : s.abort = false) : OutV F s q v := by
   obtain ⟨s3, hr3, hs3, hh3, hip3, hsp3, hag3, hget3⟩ := h
   obtain ⟨s4, hrun, hs4, hh4, hip4, hsp4, hst4⟩ := hstep s3 hs3 hh3 hip3
   exact ⟨s4, hr3.trans (Reach.step (by rw [hs3.abort]; exact hab) hrun), hs3.trans hs4, by rw [hh4, hh3], hip4,
@@ -825,7 +798,7 @@ theorem good_cond_gen (F : FloatOps) (pos : Pos) (c t f : Expr) (ihc : Good F c)
   have hsh : Shape cs cs' := by
     rw [e7]; exact sh6.patch _ _ (by rw [hjp2]; have := shc.pre.1; omega)
   refine ⟨hsh, ?_⟩
-  intro K code bp lo env s tt fuel rr t1 hK hcode hvm hip hsp hh hloc hsem
+  intro K code bp lo env s tt fuel rr t1 hK hcode hvm hip hsp hloc hsem
   have hK6 : IsPre cs6.constants K := by
     have : cs'.constants = cs6.constants := by rw [e7]
     rw [← this]; exact hK
@@ -862,64 +835,60 @@ theorem good_cond_gen (F : FloatOps) (pos : Pos) (c t f : Expr) (ihc : Good F c)
     have hnf := need_pos f
     have hlo := hvm.lo
     obtain ⟨rc, tc, hec, hsem⟩ := exec_bind_inv hsem
-    have hgc := (grows_evalF F fuel env c).h tt
-    rw [hec] at hgc
     have oc := simc K code bp lo env s tt fuel rc tc
       (Compile.IsPre.trans ((((she1.trans sht).trans she2).cpre.trans (by rw [e5]; exact Compile.IsPre.refl _)).trans shf.cpre) hK6)
-      hcc' hvm hip (by omega) hh hloc hec
+      hcc' hvm hip (by omega) hloc hec
     cases rc with
     | thr a =>
       obtain ⟨rfl, rfl⟩ := exec_pure_inv hsem
       exact oc
     | val cv =>
-      obtain ⟨s1, hr1, hs1, hh1, hip1, hsp1, hag1, hget1⟩ := oc
-      obtain ⟨hvm1, hloc1⟩ := carry hvm hloc hs1 (keep_of hh hgc hh1) hag1 (by omega) (by omega)
-      simp only at hsem
+      obtain ⟨rfl, hsc, s1, hr1, hs1, hh1, hip1, hsp1, hag1, hget1⟩ := oc
+      obtain ⟨hvm1, hloc1⟩ := carry hvm hloc hs1 hh1 hag1 (by omega) (by omega)
+      try simp only at hsem
       obtain ⟨fl, tf, hfl, hsem⟩ := exec_bind_inv hsem
-      have hro := runsOn_of (ho_isFalsy cv) (grows_isFalsy cv) hfl
-      have hgf := (grows_isFalsy cv).h tc
-      rw [hfl] at hgf
+      obtain ⟨rfl, hro⟩ := (pure_isFalsy hsc).runsOn hfl
       have hidx : s1.sp - 1 = s.sp := by omega
       obtain ⟨s2, hrun, hs2, hh2, hip2, hsp2, hst2⟩ := step_jumpFalsy F hvm1.code cs1.insts.size hip1 _ b1 b2 b3 b4
         (by simpa using hcj1 0 (by omega)) rfl
         (by simpa using hcj1 1 (by omega)) (by simpa using hcj1 2 (by omega))
-        (by simpa using hcj1 3 (by omega)) (by simpa using hcj1 4 (by omega)) (by omega) fl tf.heap
-        (by rw [hidx, hget1, hh1]; exact hro)
+        (by simpa using hcj1 3 (by omega)) (by simpa using hcj1 4 (by omega)) (by omega) fl s1.heap
+        (by rw [hidx, hget1]; exact hro _)
       rw [hdec1] at hip2
       rw [hidx] at hst2
       have hag2 : AgreeBelow s.sp.toNat s.stack s2.stack := by rw [hst2]; exact hag1.set _ _ (Nat.le_refl _)
       have hag12 : AgreeBelow s.sp.toNat s1.stack s2.stack := by
         rw [hst2]; exact (AgreeBelow.refl _ _).set _ _ (Nat.le_refl _)
-      obtain ⟨hvm2, hloc2⟩ := carry hvm1 hloc1 hs2 (keep_of hh1.symm hgf hh2) hag12 (by omega) (by omega)
+      obtain ⟨hvm2, hloc2⟩ := carry hvm1 hloc1 hs2 hh2 hag12 (by omega) (by omega)
       have hreach2 := hr1.trans (Reach.step hvm1.abort hrun)
+      have hh02 : s2.heap = s.heap := by rw [hh2, hh1]
       cases fl with
       | true =>
         simp only [if_true] at hip2 hsem
-        have of_ := simf K code bp lo env s2 tf fuel rr t1 hK6 hcf' hvm2 (by omega) (by omega) hh2.symm
+        have of_ := simf K code bp lo env s2 tt fuel rr t1 hK6 hcf' hvm2 (by omega) (by omega)
           (by rw [hli5]; exact hloc2) hsem
         rw [← hsz'] at of_
-        exact Outcome.via hreach2 (hs1.trans hs2) hag2 (by omega) of_
+        exact Outcome.via hreach2 (hs1.trans hs2) hh02 hag2 (by omega) of_
       | false =>
         simp only [Bool.false_eq_true, if_false] at hip2 hsem
-        have hgt := (grows_evalF F fuel env t).h tf
-        have ot := simt K code bp lo env s2 tf fuel rr t1
+        have ot := simt K code bp lo env s2 tt fuel rr t1
           (Compile.IsPre.trans ((she2.cpre.trans (by rw [e5]; exact Compile.IsPre.refl _)).trans shf.cpre) hK6)
-          hct' hvm2 (by omega) (by omega) hh2.symm
+          hct' hvm2 (by omega) (by omega)
           (by rw [she1.localIdx, shc.localIdx]; exact hloc2) hsem
         cases rr with
-        | thr a => exact Outcome.via hreach2 (hs1.trans hs2) hag2 (by omega) ot
+        | thr a => exact Outcome.via hreach2 (hs1.trans hs2) hh02 hag2 (by omega) ot
         | val v =>
-          rw [hsem] at hgt
-          have ot' : Outcome F s2 t1.heap cs'.insts.size (.val v) := by
-            refine Outcome.then_jump (K := K) (code := code) (bp := bp) (lo := lo) ot ?_ hvm2.abort
+          obtain ⟨ht1, hsv, otv⟩ := ot
+          have ot' : OutV F s2 cs'.insts.size v := by
+            refine OutV.then_jump otv ?_ hvm2.abort
             intro s3 hs3 hh3 hip3
-            have hc3 : CodeAt s3 code := hvm2.code.of_keep hs3 (keep_of hh2.symm hgt hh3)
+            have hc3 : CodeAt s3 code := hvm2.code.of_same hs3 hh3
             obtain ⟨s4, hrun4, hs4, hh4, hip4, hsp4, hst4⟩ := step_jump F hc3 cs3.insts.size hip3 _ e1 e2' e3 e4'
               (by simpa using hcj2 0 (by omega)) rfl
               (by simpa using hcj2 1 (by omega)) (by simpa using hcj2 2 (by omega))
               (by simpa using hcj2 3 (by omega)) (by simpa using hcj2 4 (by omega))
             exact ⟨s4, hrun4, hs4, hh4, by rw [hdec2] at hip4; omega, hsp4, hst4⟩
-          exact Outcome.via hreach2 (hs1.trans hs2) hag2 (by omega) ot'
+          exact Outcome.via hreach2 (hs1.trans hs2) hh02 hag2 (by omega) ⟨ht1, hsv, ot'⟩
 
 
 theorem good_cond (F : FloatOps) (pos : Pos) (c t f : Expr) (ihc : Good F c) (iht : Good F t) (ihf : Good F f) :
@@ -937,7 +906,7 @@ theorem good_cond (F : FloatOps) (pos : Pos) (c t f : Expr) (ihc : Good F c) (ih
       intro x ihx hFx hcx hev hnx
       obtain ⟨shx, simx⟩ := ihx cs cs' hcx hFx
       refine ⟨shx, ?_⟩
-      intro K code bp lo env s tt fuel rr t1 hK hcode hvm hip hsp hh hloc hsem
+      intro K code bp lo env s tt fuel rr t1 hK hcode hvm hip hsp hloc hsem
       cases fuel with
       | zero => exact (evalF_zero_ne hsem).elim
       | succ fuel =>
@@ -955,7 +924,7 @@ theorem good_cond (F : FloatOps) (pos : Pos) (c t f : Expr) (ihc : Good F c) (ih
           simp only [Prod.mk.injEq, Except.ok.injEq] at hfl
           obtain ⟨rfl, rfl⟩ := hfl
           rw [hev] at hsem
-          exact simx K code bp lo env s tc (fuel + 1) rr t1 hK hcode hvm hip (by omega) hh hloc hsem
+          exact simx K code bp lo env s tc (fuel + 1) rr t1 hK hcode hvm hip (by omega) hloc hsem
     cases b with
     | true =>
       simp only [if_true] at hc
